@@ -554,14 +554,8 @@ func c27(c *core.Ctx) {
 	c.Rule("C27.lockorder", "the lock-order graph over the client's mutexes (subMux, Subscription.itemsMu / paramsMu, monitor.Subscription.mu, channel mutexes) is acyclic and no mutex is re-acquired while held", 1)
 
 	ls := locks(c)
-	sig := func(v ssa.Value) *types.Var {
-		f := loadedField(v).f
-		if f == pausech || f == resumech {
-			return f
-		}
-		return nil
-	}
-	// all send sites on the two channels
+	// all send sites on the two channels. A send in a private helper that receives the channel as a parameter is
+	// attributed to each call of the helper, with the channel field that call passes (context sensitive, two levels).
 	type sendSite struct {
 		in       ssa.Instruction
 		f        *ssa.Function
@@ -570,20 +564,40 @@ func c27(c *core.Ctx) {
 		bare     bool
 	}
 	var sites []sendSite
+	var attribute func(f *ssa.Function, in ssa.Instruction, ch ssa.Value, blocking, bare bool, depth int)
+	attribute = func(f *ssa.Function, in ssa.Instruction, ch ssa.Value, blocking, bare bool, depth int) {
+		if fl := loadedField(ch).f; fl == pausech || fl == resumech {
+			sites = append(sites, sendSite{in, f, fl, blocking, bare})
+			return
+		}
+		p, isParam := ssax.Strip(ch).(*ssa.Parameter)
+		if !isParam || depth > 2 {
+			return
+		}
+		idx := -1
+		for i, q := range f.Params {
+			if q == p {
+				idx = i
+			}
+		}
+		for _, k := range ipCallers(f) {
+			for _, cs := range ssax.Calls(k) {
+				if cs.Common().StaticCallee() == f && idx >= 0 && idx < len(cs.Common().Args) {
+					attribute(k, cs, cs.Common().Args[idx], blocking, bare, depth+1)
+				}
+			}
+		}
+	}
 	for _, f := range libFns(c, "opcua") {
 		for _, b := range f.Blocks {
 			for _, in := range b.Instrs {
 				switch x := in.(type) {
 				case *ssa.Send:
-					if ch := sig(x.Chan); ch != nil {
-						sites = append(sites, sendSite{x, f, ch, true, true})
-					}
+					attribute(f, x, x.Chan, true, true, 0)
 				case *ssa.Select:
 					for _, st := range x.States {
 						if st.Dir == types.SendOnly {
-							if ch := sig(st.Chan); ch != nil {
-								sites = append(sites, sendSite{x, f, ch, x.Blocking, false})
-							}
+							attribute(f, x, st.Chan, x.Blocking, false, 0)
 						}
 					}
 				}
